@@ -26,6 +26,10 @@ def run(c):
     for r in rej:
         ev, raw = txnlib.describe(r)
         sig = "seq|%s|%s" % (raw.get("ev"), raw.get("op") or ("exists=%s" % raw.get("exists")))
+        if raw.get("ev") == "OpError" and "no such file" in raw.get("note", ""):
+            stores = {s["Name"]: s for s in (r["header"].get("program") or {}).get("stores", [])}
+            sig += "|%s%s" % (stores.get(raw.get("s"), {}).get("Placement", "?"),
+                              "|after-rolled-back-update" if txnlib.rolled_back_update(r["raw"], r["index"], raw.get("s")) else "")
         if raw.get("ev") == "ObserveError":
             stores = {s["Name"]: s for s in (r["header"].get("program") or {}).get("stores", [])}
             ends = [e for e in r["raw"][:r["index"]] if e.get("ev") in ("CommitEnd", "Rollback")]
